@@ -31,7 +31,7 @@ Prec(o) == CASE o = "|" -> 0 [] o = "^" -> 1 [] o = "&" -> 2 [] o \in {"<<", ">>
 
 LeafSet == {[k |-> "lit", n |-> 1], [k |-> "lit", n |-> 2], [k |-> "lit", n |-> 3],
             [k |-> "id", name |-> "a"], [k |-> "id", name |-> "K"], [k |-> "id", name |-> "u"],
-            [k |-> "sizeof", size |-> 2]}
+            [k |-> "sizeof", size |-> 2], [k |-> "sizeof", size |-> 4]}
 RECURSIVE Trees(_)
 Trees(n) ==
   IF n = 0 THEN {l \in LeafSet : (IF l.k = "lit" THEN "lit" ELSE IF l.k = "id" THEN l.name ELSE "sizeof") \in Leaves}
@@ -51,12 +51,13 @@ Chr(s) == CASE s = "|" -> <<124>> [] s = "^" -> <<94>> [] s = "&" -> <<38>> [] s
             [] s = "~" -> <<126>> [] s = "(" -> <<40>> [] s = ")" -> <<41>> [] s = " " -> <<32>>
             [] s = "a" -> <<97>> [] s = "K" -> <<75>> [] s = "u" -> <<117>>
             [] s = "sizeof(uint16)" -> <<115, 105, 122, 101, 111, 102, 40, 117, 105, 110, 116, 49, 54, 41>>
+            [] s = "sizeof(unsigned int)" -> <<115, 105, 122, 101, 111, 102, 40, 117, 110, 115, 105, 103, 110, 101, 100, 32, 105, 110, 116, 41>>
 Digit(n) == <<48 + n>>
 RECURSIVE Render(_, _, _, _)
 Render(t, ctx, redundant, sp) ==
   IF t.k = "lit" THEN Digit(t.n)
   ELSE IF t.k = "id" THEN Chr(t.name)
-  ELSE IF t.k = "sizeof" THEN Chr("sizeof(uint16)")
+  ELSE IF t.k = "sizeof" THEN (IF t.size = 2 THEN Chr("sizeof(uint16)") ELSE Chr("sizeof(unsigned int)"))
   ELSE IF t.k = "un" THEN Chr(t.o) \o Render(t.e, 6, redundant, sp)
   ELSE LET p == Prec(t.o)
            gap == IF sp THEN Chr(" ") ELSE << >>
@@ -66,7 +67,7 @@ Render(t, ctx, redundant, sp) ==
 EnvCtx(c) == IF c = Ctx1 THEN << <<Chr("a"), 5>>, <<Chr("u"), 3>> >> ELSE << <<Chr("a"), 1>> >>
 Env(c) == [ctx |-> EnvCtx(c),
            consts |-> << <<Chr("K"), 2>>, <<Chr("u"), 7>>, <<Chr("a"), 100>> >>,
-           sizes |-> << <<<<117, 105, 110, 116, 49, 54>>, 2>> >>]
+           sizes |-> << <<<<117, 105, 110, 116, 49, 54>>, 2>>, <<<<117, 110, 115, 105, 103, 110, 101, 100, 32, 105, 110, 116>>, 4>> >>]
 
 -----------------------------------------------------------------------------
 \* the implementation as a machine.  Tokens are the grammar's tokens; the rewrite turns O("-") into O(UnaryMarker).
@@ -122,7 +123,14 @@ Scan == /\ pc = "scan"
                 CASE k.t = "n" -> queue' = Append(queue, k.v) /\ i' = i + 1 /\ UNCHANGED <<pc, stack, res1, res2, run>>
                   [] k.t = "i" -> queue' = Append(queue, IdentVal(k.s)) /\ i' = i + 1 /\ UNCHANGED <<pc, stack, res1, res2, run>>
                   [] IsUnaryTok(k) -> stack' = Append(stack, k.s) /\ i' = i + 1 /\ UNCHANGED <<pc, queue, res1, res2, run>>
-                  [] k.t = "o" /\ k.s = "sizeof" -> queue' = Append(queue, 2) /\ i' = i + 4 /\ UNCHANGED <<pc, stack, res1, res2, run>>
+                  \* "end = index of the next ')'; the tokens between '(' and it are the words of the type name"
+                  [] k.t = "o" /\ k.s = "sizeof" ->
+                       LET E == {j \in i..Len(toks) : toks[j].t = "o" /\ toks[j].s = ")"}
+                           end == IF E = {} THEN 0 ELSE SetMin(E)
+                       IN IF end < i + 3 \/ ~IsOp(toks, i + 1, {"("}) \/ (\E j \in (i + 2)..(end - 1) : toks[j].t # "i")
+                          THEN Fail /\ UNCHANGED <<>>
+                          ELSE /\ queue' = Append(queue, Lookup(Env(Ctx1).sizes, JoinWords(toks, i + 2, end - 1)))
+                               /\ i' = end + 1 /\ UNCHANGED <<pc, stack, res1, res2, run>>
                   [] k.t = "o" /\ k.s \in BinOps -> pc' = "popwhile" /\ UNCHANGED <<i, stack, queue, res1, res2, run>>
                   [] k.t = "o" /\ k.s = "(" -> stack' = Append(stack, "(") /\ i' = i + 1 /\ UNCHANGED <<pc, queue, res1, res2, run>>
                   [] k.t = "o" /\ k.s = ")" -> IF Len(stack) = 0 THEN Fail /\ UNCHANGED <<>> ELSE pc' = "close" /\ UNCHANGED <<i, stack, queue, res1, res2, run>>
